@@ -3630,21 +3630,21 @@ class TLSConnection(TLSRecordLayer):
                     "Master Secret extension"):
                 yield result
 
-        # sanity check the ec point formats extension
-        if real_version <= (3, 3):
-            ecExt = clientHello.getExtension(ExtensionType.ec_point_formats)
-            if ecExt:
-                if not ecExt.formats:
-                    for result in self._sendError(
-                            AlertDescription.decode_error,
-                            "Empty ec_point_formats extension"):
-                        yield result
-                if ECPointFormat.uncompressed not in ecExt.formats:
-                    for result in self._sendError(
-                            AlertDescription.illegal_parameter,
-                            "Client sent ec_point_formats extension "
-                            "without uncompressed format"):
-                        yield result
+        # sanity check the ec point formats extension (a TLS 1.3 capable
+        # client may still end up negotiating TLS 1.2 or earlier)
+        ecExt = clientHello.getExtension(ExtensionType.ec_point_formats)
+        if ecExt:
+            if not ecExt.formats:
+                for result in self._sendError(
+                        AlertDescription.decode_error,
+                        "Empty ec_point_formats extension"):
+                    yield result
+            if ECPointFormat.uncompressed not in ecExt.formats:
+                for result in self._sendError(
+                        AlertDescription.illegal_parameter,
+                        "Client sent ec_point_formats extension "
+                        "without uncompressed format"):
+                    yield result
 
         # sanity check the TLS 1.3 extensions
         ver_ext = clientHello.getExtension(ExtensionType.supported_versions)
